@@ -39,9 +39,51 @@ def impl_structure(case):
     return implutil.get_class(case["cls"]).structure()
 
 
+def _sre_items(text):
+    """the parse tree CPython's re parser builds for `text`, as pattern items; None outside the fragment"""
+    import re
+    try:
+        import re._parser as sp
+        import re._constants as sc
+    except ImportError:  # before 3.11
+        import sre_parse as sp
+        import sre_constants as sc
+    tree = sp.parse(text)
+    if not (tree.state.flags & re.IGNORECASE):
+        return None
+    def cls_of(op, av):
+        if op is sc.LITERAL:
+            return chr(av)
+        if op is sc.IN and all(o is sc.LITERAL for o, _ in av):
+            return "".join(chr(a) for _, a in av)
+        return None
+    def walk(sub):
+        items = []
+        for op, av in sub:
+            c = cls_of(op, av)
+            if c is not None:
+                items.append(["atom", c])
+            elif op in (sc.MAX_REPEAT, sc.MIN_REPEAT) and av[0] == 0 and av[1] == sc.MAXREPEAT and len(av[2]) == 1 \
+                    and cls_of(*av[2][0]) is not None:
+                items.append(["starg" if op is sc.MAX_REPEAT else "starl", cls_of(*av[2][0])])
+            elif op is sc.SUBPATTERN and av[0] is not None and not av[1] and not av[2]:
+                inner = walk(av[3])
+                if inner is None:
+                    return None
+                items += [["open", ""]] + inner + [["close", ""]]
+            else:
+                return None
+        return items
+    return walk(tree)
+
+
 def impl_transcribe(text):
     from moclo.regex import DNARegex
     out = {"tr": DNARegex._transcribe(text)}
+    try:
+        out["sre"] = _sre_items(out["tr"])
+    except Exception:  # noqa  (a text re cannot parse)
+        out["sre"] = None
     try:
         out["compiled"] = DNARegex(text).regex.pattern
     except Exception as e:  # noqa  (an unbalanced random text)
@@ -196,6 +238,22 @@ def run(ctx):
             ctx.violations.append({"signature": "C05:compiled-text-differs", "input": {"pattern": t},
                                    "what": "DNARegex(%r) compiled %r, _transcribe gives %r" % (t, o["compiled"], o["tr"])})
         tterms.append('("%s"%%string, "%s"%%string)' % (t, o["tr"].replace('"', '""')))
+    # the model of how `re` reads the compiled text (SrcEquivTranscribe.re_read, which the theorems about the compiled
+    # text are stated with) against the parse tree CPython's re parser builds for it
+    pterms, pidx = [], []
+    for k, (t, o) in enumerate(zip(ttexts, tobs)):
+        items = o.get("sre")
+        if not items or any(ch not in pattern.CODES for it in items for ch in it[1]):
+            continue
+        ctx.count("re-parse-trees")
+        pterms.append('("%s"%%string, %s)' % (o["tr"], pattern.c_pattern([tuple(it) for it in items])))
+        pidx.append(k)
+    bad = common.coq_eval_cases(ctx, "reread", SRC_IMPORTS, pterms, "check_re_read", per_file=400)
+    for b in bad:
+        k = pidx[b]
+        ctx.disagreements.append({"case": {"pattern": ttexts[k], "compiled": tobs[k]["tr"]}, "impl": tobs[k]["sre"],
+                                  "observable": "the parse tree of re for the compiled text vs SrcEquivTranscribe.re_read",
+                                  "model_fn": "SrcEquivTranscribe.re_read"})
     bad = common.coq_eval_cases(ctx, "transcribesrc", SRC_IMPORTS, tterms, "check_transcribe_src", per_file=400)
     for b in bad:
         ctx.disagreements.append({"case": {"pattern": ttexts[b]}, "impl": tobs[b]["tr"],
